@@ -1,8 +1,9 @@
 #!/bin/sh
-# usage: tools/seeded_matrix.sh <seed> "<seeded ids>" "<check ids>"   -- each seeded change x each check (quick tier); prints one line each
+# usage: tools/seeded_matrix.sh [seed]  -- every kept seeded change against the check of its property (scratch worktrees, quick tier)
 cd "$(dirname "$0")/.."
-seed=$1
-for m in $2; do for c in $3; do
-  VERIF_SEED=$seed VERIF_EVIDENCE_DIR=/verif/.scratch/evidence_seeded tools/run_seeded.sh $m $c --tier quick > .scratch/logs/mut.$m.$c.$seed.log 2>&1
-  echo "seeded=$m check=$c seed=$seed $(grep -c '^VIOLATION' .scratch/logs/mut.$m.$c.$seed.log) violations; $(tail -1 .scratch/logs/mut.$m.$c.$seed.log)"
-done; done
+SEED=${1:-1}
+for d in seeded/C*; do
+  id=$(basename $d)
+  p=$(/venv/bin/python -c "import json;print(json.load(open('$d/meta.json'))['property'])")
+  tools/seeded_wt.sh $id $SEED $p 2>&1 | grep -v conda | cut -c1-160
+done
